@@ -540,7 +540,7 @@ class Gen:
             rt = r.choice(["cval", "cval", "cder", "cder", "cder", "cinv", "cshift", "cscale"]); self.count("calls", rt)
             if rt == "cval": out.append("cval " + where())
             elif rt == "cder": out.append("cder %d %s" % (r.randint(1, 3), where()))
-            elif rt == "cinv": out.append("cinv %r %r" % (U(0.02, 0.98), U(0, 1)))
+            elif rt == "cinv": out.append("cinv %r %r" % (r.choice([U(0.02, 0.98), U(0.02, 0.98), U(1.0, 1.6), U(-0.6, 0.0)]), U(0, 1)))
             elif rt == "cshift": out.append("cshift %r %r" % (U(-1, 1), U(-1, 1)))
             else: out.append("cscale %r %r" % (r.choice([U(0.3, 3), -U(0.3, 3)]) if False else U(0.3, 3), U(0.3, 3)))
         # ---- torque muscles of the built-in data sets
